@@ -844,8 +844,9 @@ func mapChansOf(c *Ctx, root string) mapChans {
 		}
 		for _, fr := range deepFrames(g, 2) {
 			for _, op := range chanOpsOf(fr.f) {
-				if op.kind == "range" {
-					// the ranged-over channel, seen through the helper's parameter
+				if op.kind == "range" || (op.kind == "recv" && len(op.arms) == 1 && !op.arms[0].send && !chanElemIsEmptyStruct(op.arms[0].ch.Type())) {
+					// the ranged-over channel (or the channel of the explicit `item, ok := <-in` loop), seen through the
+					// helper's parameter
 					for _, lf := range cellLeaves(op.arms[0].ch, fr.chain, 0) {
 						if cell := loadCell(lf.v); cell != nil && rootFn(cell.Parent()) == fn {
 							mc.work = cell
@@ -868,6 +869,32 @@ func mapChansOf(c *Ctx, root string) mapChans {
 			}
 		}
 	})
+	if mc.ready == nil {
+		// the token channel is built (and pre-filled) by a constructor helper: ready := filledTokenChan(bufferSize)
+		instrs(fn, func(b *ssa.BasicBlock, i int, in ssa.Instruction) {
+			st, ok := in.(*ssa.Store)
+			if !ok {
+				return
+			}
+			cell, ok := st.Addr.(*ssa.Alloc)
+			if !ok || !chanElemIsEmptyStruct(st.Val.Type()) {
+				return
+			}
+			if call, isCall := st.Val.(*ssa.Call); isCall {
+				if cal := staticCallee(&call.Call); cal != nil && cal.Blocks != nil && c.inModule(cal) {
+					made := false
+					for _, rv := range returnedBy(origin(cal), 0) {
+						if _, ok := resolveVal(rv).(*ssa.MakeChan); ok {
+							made = true
+						}
+					}
+					if made {
+						mc.ready = cell
+					}
+				}
+			}
+		})
+	}
 	if mc.ready != nil {
 		instrs(fn, func(b *ssa.BasicBlock, i int, in ssa.Instruction) {
 			if st, ok := in.(*ssa.Store); ok && loadCell(st.Val) == mc.ready {
